@@ -280,6 +280,183 @@ def coq_gate(state, tok, res):
     return "CGate %s %s %s %s" % (ctok(state), ctok(tok), cbool(ran), ctok(res[1]))
 
 
+# ----------------------------------------------------------------------------------------------
+# A'. the real request loop _RpcThread.run with reply-delivery failure as an input
+# ----------------------------------------------------------------------------------------------
+class LossyCtx:
+    """Stub context of the worker: records every reply handed to send_message and raises
+    QMI_MessageDeliveryException for the chosen ones (the requester's context is gone)."""
+
+    def __init__(self, name, fail, nreq, on_last):
+        self.name, self.fail, self.nreq, self.on_last = name, fail, nreq, on_last
+        self.sent = []
+
+    def send_message(self, m):
+        from qmi.core.exceptions import QMI_MessageDeliveryException
+        i = len(self.sent)
+        self.sent.append(m)
+        if i == self.nreq - 1:
+            self.on_last()                 # all requests answered: ask the loop to end (public shutdown())
+        if i in self.fail:
+            raise QMI_MessageDeliveryException("peer context gone (harness)")
+
+
+def run_worker(reqs, srvname="srv"):
+    """reqs: list of ("lock", action, token, deliverable) / ("call", token, x, deliverable).
+    All requests are queued with push_rpc_request, then the REAL _RpcThread.run() is executed (synchronously, in
+    this thread) until the last reply was handed to the context.  -> dict(replies, owner, log, died)"""
+    rpc, Addr = _imports()
+    box = {}
+    n = len(reqs)
+    ctx = LossyCtx(srvname, {i for i, r in enumerate(reqs) if not r[3]}, n, lambda: box["th"].shutdown())
+
+    def maker():
+        box["obj"] = obj_class()(ctx, "obj")
+        return box["obj"]
+    th = rpc._RpcThread(ctx, maker)
+    box["th"] = th
+    msgs = []
+    for k, r in enumerate(reqs):
+        src = Addr("gone" if not r[3] else "cl", "$f%d" % k)
+        T = (lambda t: None if t is None else rpc.QMI_LockTokenDescriptor(t[0], t[1]))
+        if r[0] == "lock":
+            m = rpc.QMI_LockRpcRequestMessage(src, Addr(srvname, "obj"), T(r[2]), rpc.QMI_LockRpcAction[r[1]])
+        else:
+            m = rpc.QMI_MethodRpcRequestMessage(src, Addr(srvname, "obj"), "bump", (r[2],), {}, T(r[1]))
+        msgs.append(m)
+        th.push_rpc_request(m)
+    died = None
+    if n:
+        try:
+            th.run()
+        except BaseException as e:
+            died = type(e).__name__
+    w = Worker.__new__(Worker)          # only for the canonicalisation helpers
+    w.rpc, w.srvname = rpc, srvname
+    replies = []
+    for m, rep, r in zip(msgs, ctx.sent, reqs):
+        if r[0] == "lock":
+            replies.append(("lock", w.canon_reply(m, rep)))
+        else:
+            replies.append(w.canon_method_reply(m, rep, r[2]))
+    t = th._locking_token
+    return {"replies": replies, "owner": None if t is None else (t[0], t[1]),
+            "log": list(box["obj"].log) if "obj" in box else [], "died": died, "answered": len(ctx.sent)}
+
+
+def oracle_worker(reqs, res):
+    """The property on one pass through the worker loop: owner changes only by acquire-when-free,
+    release-by-owner, force-release; delivery outcomes play no role.  None or (key, text)."""
+    owner, log = None, []
+    last_loss = None
+    for k, r in enumerate(reqs):
+        if k >= len(res["replies"]):
+            return ("worker:no-reply-produced", "request %d %r never reached send_message (worker died: %s)"
+                    % (k, r, res["died"]))
+        got = res["replies"][k]
+        before = owner
+        if r[0] == "lock":
+            act, tok = r[1], r[2]
+            if act == "ACQUIRE":
+                if tok is None:
+                    exp = ("denied",)
+                elif owner is None or owner == tok:
+                    owner, exp = tok, ("tok", tok)
+                else:
+                    exp = ("denied",)
+            elif act == "RELEASE":
+                if owner is None or owner == tok:
+                    owner, exp = None, ("none",)
+                else:
+                    exp = ("denied",)
+            elif act == "FORCE_RELEASE":
+                owner, exp = None, ("none",)
+            else:
+                exp = ("none",) if owner is None else ("locked",)
+            ok = got == ("lock", exp)
+        else:
+            should = owner is None or owner == r[1]
+            if should:
+                log.append(r[2])
+            ok = got == ("exec", should)
+        if not ok:
+            if last_loss is not None:
+                j, lr, lstate, lrel = last_loss
+                return ("reply-loss:%s:%s:%s" % (lr[1] if lr[0] == "lock" else "method", lstate, lrel),
+                        "the reply to request %d %r (object %s, request token = %s) could not be delivered; afterwards "
+                        "request %d %r got %r where the property demands the outcome for owner %r — an undeliverable "
+                        "reply must not change the lock" % (j, lr[:3], lstate, lrel, k, r[:3], got, before))
+            return ("worker:%s" % (r[1] if r[0] == "lock" else "method"),
+                    "request %d %r with owner %r got %r" % (k, r[:3], before, got))
+        if not r[3]:
+            tok = r[2] if r[0] == "lock" else r[1]
+            last_loss = (k, r, "free" if before is None else "locked",
+                         "none" if tok is None else ("token" if before is None else "owner" if tok == before else "other"))
+    if res["died"]:
+        return ("worker:died", "the worker loop ended with %s" % res["died"])
+    if res["owner"] != owner or res["log"] != log:
+        if last_loss is not None:
+            j, lr, lstate, lrel = last_loss
+            return ("reply-loss:%s:%s:%s" % (lr[1] if lr[0] == "lock" else "method", lstate, lrel),
+                    "after the undeliverable reply to request %d %r the owner is %r (log %r); the property demands "
+                    "%r (log %r)" % (j, lr[:3], res["owner"], res["log"], owner, log))
+        return ("worker:final-state", "final owner %r / log %r, expected %r / %r" % (res["owner"], res["log"], owner, log))
+    return None
+
+
+def attribute_loss(reqs, why):
+    """a reply-loss finding names the most recent undeliverable reply; find the one that really matters: the
+    first undeliverable reply that alone (all others delivered) still makes the history fail"""
+    if not why or not why[0].startswith("reply-loss:"):
+        return reqs, why
+    alld = [q[:3] + (True,) for q in reqs]
+    w = oracle_worker(alld, run_worker(alld))
+    if w:                       # fails with every reply delivered as well: not a matter of reply loss
+        return alld, w
+    for j, r in enumerate(reqs):
+        if r[3]:
+            continue
+        alone = [q if (i == j or q[3]) else q[:3] + (True,) for i, q in enumerate(reqs)]
+        w = oracle_worker(alone, run_worker(alone))
+        if w and w[0].startswith("reply-loss:"):
+            return alone, w
+    return reqs, why
+
+
+def coq_work(reqs, res):
+    items = []
+    for r in reqs:
+        if r[0] == "lock":
+            items.append("(RqLock %s %s, %s)" % (COQ_ACTION[r[1]], ctok(r[2]), cbool(r[3])))
+        else:
+            items.append("(RqCall %s %s, %s)" % (ctok(r[1]), cN(r[2]), cbool(r[3])))
+    obs = []
+    for g in res["replies"]:
+        if g[0] == "lock":
+            obs.append("WLock %s" % creply(g[1]))
+        elif g[0] == "exec":
+            obs.append("WExec %s" % cbool(g[1]))
+        else:
+            obs.append("WLock (RTok (0%N, TCustom 0%N))")
+    return "CWork %s %s %s %s" % (clist(items), clist(obs), ctok(res["owner"]),
+                                  "[" + ";".join(str(x) for x in res["log"]) + "]%N")
+
+
+def worker_table(pairs):
+    """every request kind x lock state {free, A (first grant earlier), A re-granted idempotently} x request token
+    {none, owner, other} x deliverable / undeliverable, followed by probes (QUERY, calls with A, B, no token)"""
+    for A, B in pairs:
+        for setup in ([], [("lock", "ACQUIRE", A, True)], [("lock", "ACQUIRE", B, True)],
+                      [("lock", "ACQUIRE", A, True), ("lock", "ACQUIRE", A, True)]):
+            for tok in (None, A, B):
+                for deliverable in (True, False):
+                    tests = [("lock", a, tok, deliverable) for a in ACTIONS] + [("call", tok, 5, deliverable)]
+                    for t in tests:
+                        probes = [("lock", "QUERY", None, True), ("call", A, 1, True), ("call", B, 2, True),
+                                  ("call", None, 3, True), ("lock", "ACQUIRE", B, True), ("lock", "QUERY", None, True)]
+                        yield setup + [t] + probes
+
+
 def token_pairs(ck):
     rng = ck.rng
     pairs = [(("c1", "x"), ("c1", "y")),          # same context, different strings
@@ -1230,6 +1407,266 @@ def scenario_concurrent_tokens(s, nthreads, per_thread, same_name):
     return {"tokens": toks}
 
 
+VANISH_INITS = ["free", "survivor-custom", "survivor-auto", "victim-custom", "victim-auto"]
+VANISH_REQS = ["lock-custom", "lock-auto", "unlock", "unlock-custom", "force", "islocked", "call"]
+
+
+def scenario_vanishing_client(s, spec):
+    """H3 + fake network: real server context with one object, a surviving client and a victim client (same or
+    different context name).  The object is busy with a slow method; the victim's request (spec['req']) is queued
+    behind it; the victim's context stops / disconnects before the request is handled, so the reply cannot be
+    delivered; then the survivors go on.  Returns plain observations."""
+    import threading as real_threading
+    import logging
+    import dsched as _ds
+    logging.disable(logging.CRITICAL)
+    from qmi.core.context import QMI_Context
+    from qmi.core.config_defs import CfgQmi, CfgContext
+    from qmi.core.rpc import QMI_RpcObject, rpc_method
+
+    class Gate(QMI_RpcObject):
+        def __init__(self, ctx, name):
+            super().__init__(ctx, name)
+            self.log = []
+
+        @rpc_method
+        def hold(self, dur):
+            _ds.FAKE_TIME.sleep(dur)
+            return "held"
+
+        @rpc_method
+        def bump(self, x):
+            self.log.append(x)
+            return x
+    cfg = CfgQmi(contexts={"srv": CfgContext(tcp_server_port=5001)})
+    srv = QMI_Context("srv", cfg)
+    srv.start()
+    p0 = srv.make_rpc_object("obj", Gate)
+    th = srv._rpc_object_map["obj"]._rpc_thread
+    obj = th._rpc_object
+    c1 = QMI_Context("cli", cfg)
+    c1.start()
+    c1.connect_to_peer("srv", "127.0.0.1:5001")
+    c2 = QMI_Context(spec["victim_name"], cfg)
+    c2.start()
+    c2.connect_to_peer("srv", "127.0.0.1:5001")
+    ps, pv = c1.get_rpc_object_by_name("srv.obj"), c2.get_rpc_object_by_name("srv.obj")
+    gen = []
+    orig = c2.make_unique_token
+
+    def rec(prefix="$lock_"):
+        t = orig(prefix=prefix)
+        gen.append((t[0], t[1]))
+        return t
+    c2.make_unique_token = rec
+
+    def owner():
+        t = th._locking_token
+        return None if t is None else (t[0], t[1])
+
+    def tk(p):
+        return None if p._lock_token is None else (p._lock_token[0], p._lock_token[1])
+    out = {"spec": spec, "setup_ok": True}
+    init = spec["init"]
+    if init == "survivor-custom":
+        out["setup_ok"] = ps.lock(lock_token="x")
+    elif init == "survivor-auto":
+        out["setup_ok"] = ps.lock()
+    elif init == "victim-custom":
+        out["setup_ok"] = pv.lock(lock_token="x")
+    elif init == "victim-auto":
+        out["setup_ok"] = pv.lock()
+    out["owner_before"] = owner()
+    out["survivor_token"], out["victim_token"] = tk(ps), tk(pv)
+    holder = pv if init.startswith("victim") else ps
+    fut = holder.rpc_nonblocking.hold(2.0)
+    _ds.FAKE_TIME.sleep(0.5)
+    req = spec["req"]
+    pend = {}
+
+    def pending():
+        try:
+            if req == "lock-custom":
+                pend["r"] = pv.lock(lock_token="x")
+            elif req == "lock-auto":
+                pend["r"] = pv.lock()
+            elif req == "unlock":
+                pend["r"] = pv.unlock()
+            elif req == "unlock-custom":
+                pend["r"] = pv.unlock(lock_token="x")
+            elif req == "force":
+                pend["r"] = pv.force_unlock()
+            elif req == "islocked":
+                pend["r"] = pv.is_locked()
+            else:
+                pend["r"] = pv.bump(99)
+        except BaseException as e:  # noqa  (the client goes away while waiting)
+            pend["exc"] = type(e).__name__
+    t = real_threading.Thread(target=pending)
+    t.start()
+    _ds.FAKE_TIME.sleep(0.5)
+    out["queued"] = len(th._fifo)
+    out["sent_auto"] = list(gen)
+    if spec["vanish"] == "stop":
+        c2.stop()
+    else:
+        c2.disconnect_from_peer("srv")
+    _ds.FAKE_TIME.sleep(3.0)          # hold() ends, the queued request is handled, its reply has nowhere to go
+    try:
+        out["hold"] = fut.wait(5.0)
+    except BaseException as e:  # noqa
+        out["hold"] = "EXC " + type(e).__name__
+    t.join()
+    out["pending_result"] = repr(pend.get("r")) if "r" in pend else "EXC " + str(pend.get("exc"))
+    out["worker_alive"] = th.is_alive()
+    out["owner_after"] = owner()
+    out["log_after"] = list(obj.log)
+    surv = {}
+    try:
+        surv["survivor_is_locked"] = ps.is_locked()
+        n0 = len(obj.log)
+        try:
+            p0.bump(7)
+            surv["observer_call"] = True
+        except BaseException as e:  # noqa
+            surv["observer_call"] = False
+        surv["observer_call_ran"] = len(obj.log) - n0
+        surv["observer_lock"] = p0.lock()
+        if surv["observer_lock"]:
+            surv["observer_unlock"] = p0.unlock()
+        n0 = len(obj.log)
+        try:
+            ps.bump(8)
+            surv["survivor_call"] = True
+        except BaseException as e:  # noqa
+            surv["survivor_call"] = False
+        surv["survivor_call_ran"] = len(obj.log) - n0
+        surv["owner_end"] = owner()
+    except BaseException as e:  # noqa
+        surv["exc"] = repr(e)[:200]
+    out["survivors"] = surv
+    for c in (c2, c1, srv):
+        try:
+            c.stop()
+        except BaseException:  # noqa
+            pass
+    return out
+
+
+def oracle_vanish(ob):
+    """the owner changes only by acquire-when-free, release-by-owner, force-release — whether or not the reply can
+    be delivered; the survivors then see exactly that owner.  None or (key, text)."""
+    spec = ob["spec"]
+    before = None if ob["owner_before"] is None else tuple(ob["owner_before"])
+    vt = None if ob["victim_token"] is None else tuple(ob["victim_token"])
+    st = None if ob["survivor_token"] is None else tuple(ob["survivor_token"])
+    req = spec["req"]
+    if not ob["setup_ok"]:
+        return ("vanish:setup", "setup lock was not granted: %r" % (ob,))
+    custom = (spec["victim_name"], "x")
+    if req == "lock-custom":
+        act, tok = "ACQUIRE", custom
+    elif req == "lock-auto":
+        act, tok = "ACQUIRE", (tuple(ob["sent_auto"][-1]) if ob["sent_auto"] else None)
+    elif req == "unlock":
+        act, tok = "RELEASE", vt
+    elif req == "unlock-custom":
+        act, tok = "RELEASE", custom
+    elif req == "force":
+        act, tok = "FORCE_RELEASE", vt
+    elif req == "islocked":
+        act, tok = "QUERY", vt
+    else:
+        act, tok = "method", vt
+    exp = before
+    if act == "ACQUIRE" and before is None and tok is not None:
+        exp = tok
+    elif act == "RELEASE" and before is not None and before == tok:
+        exp = None
+    elif act == "FORCE_RELEASE":
+        exp = None
+    after = None if ob["owner_after"] is None else tuple(ob["owner_after"])
+    rel = "none" if tok is None else ("token" if before is None else "owner" if tok == before else "other")
+    where = "%s by a client (context %r) that %s while its request was queued; object %s before, request token = %s" % (
+        act, spec["victim_name"], "stopped" if spec["vanish"] == "stop" else "disconnected",
+        "free" if before is None else "locked by %r" % (before,), rel)
+    handled = ob["queued"] >= 1
+    allowed = {exp} if handled else {exp, before}
+    if not ob["worker_alive"]:
+        return ("vanish:worker-died", where + ": the object's worker thread is dead afterwards")
+    if after not in allowed:
+        return ("reply-loss:%s:%s:%s:real-contexts" % (act, "free" if before is None else "locked", rel),
+                where + ": afterwards the owner is %r; the property demands %r (nobody sent unlock-with-the-owner's-"
+                "token or force_unlock%s)" % (after, exp, "" if act not in ("RELEASE", "FORCE_RELEASE") else " other than this request"))
+    sv = ob["survivors"]
+    if "exc" in sv:
+        return ("vanish:survivor-exception", where + ": a surviving proxy raised %s" % sv["exc"])
+    if sv["survivor_is_locked"] != (after is not None):
+        return ("query:untruthful:after-vanish", where + ": is_locked() = %r while the owner is %r" % (sv["survivor_is_locked"], after))
+    if sv["observer_call"] != (after is None) or sv["observer_call_ran"] != (1 if after is None else 0):
+        return ("gate:after-vanish:observer", where + ": a proxy without token called a method while the owner is %r: "
+                "executed=%r (body ran %d time(s))" % (after, sv["observer_call"], sv["observer_call_ran"]))
+    if sv["observer_lock"] != (after is None):
+        return ("mutex:after-vanish:observer-lock", where + ": another proxy's lock() returned %r while the owner is %r"
+                % (sv["observer_lock"], after))
+    should = after is None or after == st
+    if sv["survivor_call"] != should or sv["survivor_call_ran"] != (1 if should else 0):
+        return ("gate:after-vanish:survivor", where + ": the surviving client's call (token %r) while the owner is %r: "
+                "executed=%r" % (st, after, sv["survivor_call"]))
+    return None
+
+
+def vanish_specs(tier):
+    out = []
+    for names in ("cli", "cl2"):
+        for vanish in ("stop", "disconnect"):
+            for init in VANISH_INITS:
+                for req in VANISH_REQS:
+                    out.append({"victim_name": names, "vanish": vanish, "init": init, "req": req})
+    return out
+
+
+def run_vanishing(ck):
+    import dsched
+    import qmi.core.context  # noqa
+    import qmi.core.rpc  # noqa
+    import qmi.core.messaging  # noqa
+    specs = vanish_specs(ck.tier)
+    if ck.tier != "quick":
+        specs = specs * 6            # the same 140 situations under more schedules
+    jobs = [(scenario_vanishing_client, (sp,), dict(strategy="fifo" if i % 3 == 0 else "random", seed=ck.seed * 131 + i))
+            for i, sp in enumerate(specs)]
+    t0 = time.time()
+    nq = 0
+    seen_v = set()
+    for i, res in enumerate(dsched.run_forked(jobs, nproc=16, wall_timeout=60)):
+        sp = specs[i]
+        ck.note_case(("vanish", tuple(sorted(sp.items())), tuple(res.get("choices") or ())), True)
+        ck.count("vanish:" + res["status"])
+        ck.count("vanish:req:" + sp["req"])
+        ck.count("vanish:%s:%s" % ("same-name" if sp["victim_name"] == "cli" else "other-name", sp["vanish"]))
+        rep = {"kind": "vanish", "spec": sp, "strategy": jobs[i][2]["strategy"], "sched_seed": jobs[i][2]["seed"],
+               "schedule": res.get("choices")}
+        if res["status"] != "ok":
+            ck.report("vanish:scenario-%s:%s" % (res["status"], sp["req"]),
+                      "scenario 'client vanishes with a queued %s request' did not finish (%s): %s"
+                      % (sp["req"], res["status"], str(res.get("trace") or res.get("info"))[:300]), rep)
+            continue
+        ob = res["obs"]
+        if ob["queued"] >= 1:
+            nq += 1
+        why = oracle_vanish(ob)
+        if why:
+            seen_v.add(why[0])
+            if len(seen_v) <= 4:
+                ck.report(why[0], "C04 fails on the implementation (real contexts, fake network): " + why[1],
+                          dict(rep, impl={k: v for k, v in ob.items() if k != "spec"}))
+            else:
+                ck.count("vanish:further-distinct-failure-kinds-not-listed")
+    ck.coverage["vanishing_client"] = {"scenarios": len(specs), "request_was_queued_when_the_client_vanished": nq,
+                                      "seconds": round(time.time() - t0, 1)}
+
+
 def run_concurrent_tokens(ck):
     import dsched
     import qmi.core.context  # noqa
@@ -1256,6 +1693,7 @@ def run(ck):
     ck.theory_dir = THEORY
     ck.build_theory(THEORY)
     run_concurrent_tokens(ck)
+    run_vanishing(ck)
     ck.trusted = [
         "Coq 8.16.1 kernel (vm_compute evaluates the model on the cases; no native_compute)",
         "hand-written model theories/C04/Model.v of _RpcThread._handle_lock_rpc_request/_handle_method_rpc_request, "
@@ -1268,11 +1706,18 @@ def run(ck):
         "contexts built under an identical ambient state (PRNG seed/state, clocks, pid, thread, id(), construction "
         "order) — OS entropy itself is never equalised, and a genuine 2^-64 coincidence or a broken OS source is out of reach",
         "the worker handles one request at a time (C03); pickling of tokens over TCP preserves == (C02/C06)",
+        "reply delivery is an input: the real _RpcThread.run loop is executed synchronously with a stub context whose "
+        "send_message raises QMI_MessageDeliveryException for chosen replies; real contexts whose client stops or "
+        "disconnects with a queued request run under harness/dsched.py (deterministic scheduler, fake network, "
+        "virtual time) — that emulation is trusted",
     ]
     ck.assumptions = [
         "custom tokens do not start with '$lock_' and are not the reply placeholders '__ACCESS_DENIED__' / "
         "'__OBJECT_LOCKED__' in the object's own context (a user typing those collides on purpose)",
         "lock() is exercised with timeout=0 (single attempt); the retry loop only repeats the same request",
+        "reading of the property for undeliverable replies: 'released only by an unlock carrying the owner's token or by "
+        "force-unlock' leaves no room for taking a lock back because the requester vanished — neither an idempotent "
+        "re-grant nor a fresh grant; the pinned code keeps the lock in both cases and that is the only accepted outcome",
         "requests are handled sequentially (the blocking proxy API issues one at a time); concurrency of the "
         "worker queue is C03's subject",
     ]
@@ -1307,6 +1752,55 @@ def run(ck):
                 terms.append(coq_gate(state, tok, res))
                 metas.append((rep, why))
     ck.sample(metas[5][0], 4)
+
+    # ---- A'. the real worker loop with reply-delivery failure as an input ---------------------------
+    t_w = time.time()
+    wpairs = [(("cli", "x"), ("cli", "y")), (("cli", "$lock_1"), ("cl2", "$lock_1")), (("srv", "x"), ("cli", "x"))]
+    wcases = list(worker_table(wpairs))
+    toks = [("cli", "x"), ("cli", "y"), ("srv", "x"), None]
+    for _ in range(300 if ck.tier == "quick" else 6000):
+        seq = []
+        for k in range(rng.randint(1, 25)):
+            d = rng.random() < 0.65
+            if rng.random() < 0.7:
+                seq.append(("lock", rng.choice(ACTIONS), rng.choice(toks), d))
+            else:
+                seq.append(("call", rng.choice(toks), k, d))
+        wcases.append(seq)
+    seen_w = set()
+    for reqs in wcases:
+        res = run_worker(reqs)
+        ck.note_case(("work", tuple(reqs)), True)
+        ck.count("worker-loop:histories")
+        ck.count("worker-loop:requests", len(reqs))
+        ck.count("worker-loop:undeliverable-replies", sum(1 for r in reqs if not r[3]))
+        why = oracle_worker(reqs, res)
+        if why and res["died"] and not any(not r[3] for r in reqs[:res["answered"] + 1]):
+            why = None if not crash_cells else why      # a crash of the handler itself is table A's finding
+        rep = {"kind": "work", "reqs": reqs, "impl": res}
+        term = coq_work(reqs, res)
+        if why:
+            reqs_a, why = attribute_loss(reqs, why)
+            if reqs_a is not reqs:
+                reqs = reqs_a
+                rep = {"kind": "work", "reqs": reqs, "impl": run_worker(reqs)}
+            if not any(v.key == re.sub(r"-?\d+", "N", why[0]) for v in ck.violations):
+                sreqs = shrink_work(reqs, why[0])
+                if len(sreqs) < len(reqs):
+                    r2 = run_worker(sreqs)
+                    w2 = oracle_worker(sreqs, r2)
+                    if w2 and w2[0] == why[0]:
+                        rep, why = {"kind": "work", "reqs": sreqs, "impl": r2, "unshrunk": reqs}, w2
+            nkey = re.sub(r"-?\d+", "N", why[0])
+            seen_w.add(nkey)
+            if len(seen_w) <= 4 or nkey in [v.key for v in ck.violations]:
+                ck.report(why[0], "C04 fails on the implementation (real _RpcThread.run loop): " + why[1], rep)
+            else:
+                ck.count("worker-loop:further-distinct-failure-kinds-not-listed")
+        terms.append(term)
+        metas.append((rep, why))
+    ck.coverage["worker_loop_s"] = round(time.time() - t_w, 1)
+    ck.sample({"kind": "work", "reqs": wcases[7]}, 5)
 
     # ---- token source alone: two QMI_Context instances with the same name -----------------------
     for names in (["cl", "cl"], ["cl", "cl", "cl2", "cl"], ["a", "b"], ["x"]):
@@ -1486,6 +1980,22 @@ def run(ck):
                      "has a lock and a method call (table cells all count); distinct by content hash")
 
 
+def shrink_work(reqs, key):
+    reqs = list(reqs)
+    i = 0
+    while i < len(reqs):
+        t = reqs[:i] + reqs[i + 1:]
+        try:
+            w = oracle_worker(t, run_worker(t))
+        except Exception:
+            w = None
+        if w and w[0] == key:
+            reqs = t
+        else:
+            i += 1
+    return reqs
+
+
 def _tup(x):
     if isinstance(x, list):
         return tuple(_tup(y) for y in x)
@@ -1493,6 +2003,25 @@ def _tup(x):
 
 
 def replay(rep):
+    if rep["case"].get("kind") == "vanish":
+        import dsched
+        import qmi.core.context  # noqa
+        import qmi.core.rpc  # noqa
+        import qmi.core.messaging  # noqa
+        c = rep["case"]
+        res = dsched.run_forked([(scenario_vanishing_client, (c["spec"],),
+                                  dict(strategy="replay", schedule=list(c.get("schedule") or [])))], nproc=1, wall_timeout=60)[0]
+        print("status:", res["status"])
+        if res["status"] != "ok":
+            print(str(res.get("trace") or res.get("info"))[:600])
+            return 1
+        ob = res["obs"]
+        for k in ("spec", "owner_before", "survivor_token", "victim_token", "queued", "pending_result", "hold",
+                  "owner_after", "survivors"):
+            print("  %-16s %r" % (k, ob.get(k)))
+        why = oracle_vanish(ob)
+        print("oracle:", ("%s — %s" % why) if why else "property holds on this case")
+        return 1 if why else 0
     if rep["case"].get("concurrent_tokens"):
         import dsched
         import qmi.core.context  # noqa
@@ -1531,6 +2060,14 @@ def _replay_hist(rep):
         print("implementation:", gen)
         why = next(oracle_tokens(c["names"], gen), None)
         term = coq_tok(c["names"], gen)
+    elif kind == "work":
+        reqs = [_tup(r) for r in c["reqs"]]
+        res = run_worker(reqs)
+        for r, g in zip(reqs, res["replies"]):
+            print("  %-60r -> %r%s" % (r[:3], g, "" if r[3] else "   [reply NOT deliverable]"))
+        print("  final owner:", res["owner"], " log:", res["log"], " died:", res["died"])
+        why = oracle_worker(reqs, res)
+        term = coq_work(reqs, res)
     elif kind == "equalised":
         insts, proxies, ops, res, achieved = run_equalised(c["n"], tuple(c["sources"]), c["k"], c["full"])
         print("contexts: %d named %r, each constructed with identical: %s (random: %r); achieved: %r"
